@@ -93,6 +93,15 @@ def run(tier, seed, which="C13"):
     for i, ratio in enumerate([1, 5, 10, 20]):
         seqs = gen.family(rng, 4, 30, gen.DNA if i % 2 else gen.RNA, sub=0.1, indel=0.0)
         cases.append(dict(id="gappy%d" % i, grp="gappy%d" % i, seqs=seqs, names=gen.names(rng, 4), mode="afa", pad=ratio, vec=dict(kind="nucleotide alignment, %d gap characters per residue" % ratio)))
+    # the names are not residues: very long descriptive names spelled with the letters of the other alphabet (longer than any
+    # fixed line buffer a reader might use) must not influence the decision
+    for i, L in enumerate([300, 1030, 1100, 3000] if tier == "quick" else [255, 300, 1022, 1023, 1024, 1030, 1100, 2047, 2050, 3000, 9000]):
+        nuc = gen.family(rng, 4, 40, gen.DNA if i % 2 else gen.RNA, sub=0.1, indel=0.02)
+        pname = ["".join(rng.choice("ELVISPQRKHDWFMY_") for _ in range(L)) + "_%d" % j for j in range(4)]
+        cases.append(dict(id="lname_nuc%d" % i, grp="lname_nuc%d" % i, seqs=nuc, names=pname, mode="fasta", vec=dict(kind="nucleotides, names of %d protein letters" % L)))
+        prot = [x + "LKEF" for x in gen.family(rng, 4, 30, gen.AA, sub=0.2, indel=0.02)]
+        nname = ["".join(rng.choice("GATTACACGTN_") for _ in range(L)) + "_%d" % j for j in range(4)]
+        cases.append(dict(id="lname_prot%d" % i, grp="lname_prot%d" % i, seqs=prot, names=nname, mode="fasta", vec=dict(kind="protein, names of %d nucleotide letters" % L)))
     # more than 512 records: the composition of the file as a whole decides, wherever the nucleotide-looking records sit
     prot = [gen.rand_seq(rng, gen.AA, 25) for _ in range(515)]
     pep = [gen.rand_seq(rng, "ACGTN", 25) for _ in range(40)]
